@@ -16,7 +16,8 @@ DRAWS = 3
 def describe(tier):
     return {
         "rule": "TLS: all table suites x valid versions (x TLS 1.3 with/without handshake secrets) x 3 data draws, and three TLS 1.3 "
-                "connections in one run for every pattern of complete / traffic-only key-log entries; QUIC (incl. every ordered pair "
+                "connections in one run for every pattern of complete / traffic-only key-log entries; TLS 1.3 and QUIC with the exporter / early-exporter / "
+                "early-traffic lines of the same client random in the log: all 24 orders of the four traffic-secret lines and all 210 interleavings of the three other lines; QUIC (incl. every ordered pair "
                 "offered-first / negotiated suite): initial "
                 "DCID length 0..20 x 4 suites x generations 0..3 x early secret present/absent (+ Retry) x 3 draws. "
                 "non-trivial: every structural case whose installed material was compared; distinct = (structure, draw)",
@@ -55,6 +56,10 @@ def cases(tier, seed):
                        "draws": DRAWS if tier == "quick" else 12}
     for code in (0x1301, 0x1302, 0x1303, 0x1304, 0x1305):
         yield {"kind": "tls13_pair", "suite": code, "seed": seed}
+    for proto, codes in (("tls13", (0x1301, 0x1302, 0x1303)), ("quic", (0x1301, 0x1302, 0x1303))):
+        for code in codes:
+            for part in range(3):
+                yield {"kind": "keylog_lines", "proto": proto, "suite": code, "part": part, "seed": seed}
 
 
 def b(x):
@@ -117,6 +122,76 @@ def run_case(case):
                         outcomes.add(str(sorted((k, len(x)) for k, x in want.items())))
                         if sample is None:
                             sample = {"case": sig, "compared": {k: x.hex() for k, x in want.items()}}
+    elif case["kind"] == "keylog_lines":
+        # the key log of one connection holds, next to the four traffic secrets, the other lines a TLS 1.3 stack writes for the
+        # same client random (EXPORTER_SECRET, EARLY_EXPORTER_SECRET, CLIENT_EARLY_TRAFFIC_SECRET): every permutation of the
+        # four traffic-secret lines (others in front / behind) and every interleaving of the three others into them
+        import itertools
+        code, proto = case["suite"], case["proto"]
+        if proto == "tls13":
+            conn = scen.tls_conn({"version": tls.TLS13, "suite": code, "history": [("c", 3), ("s", 3)]}, seed, key=("kl",))
+            pk = cap.stamp(scen.tls_packets(conn), {0: cap.Ends(1)})
+        else:
+            conn = scen.quic_conn({"suite": code}, seed, key=("kl",))
+            pk = cap.stamp(scen.quic_packets(conn), {0: cap.Ends(1)})
+        base = [l for l in conn.keylog if l.split()[0] in ("CLIENT_HANDSHAKE_TRAFFIC_SECRET", "SERVER_HANDSHAKE_TRAFFIC_SECRET",
+                                                          "CLIENT_TRAFFIC_SECRET_0", "SERVER_TRAFFIC_SECRET_0")]
+        assert len(base) == 4, base
+        cr = base[0].split()[1]
+        hl = len(base[0].split()[2]) // 2
+        rng = scen.rng_for(seed, "c15kl", code)
+        extras = [f"{lab} {cr} {rng.randbytes(hl).hex()}" for lab in ("EXPORTER_SECRET", "EARLY_EXPORTER_SECRET", "CLIENT_EARLY_TRAFFIC_SECRET")]
+        orders = []
+        for perm in itertools.permutations(base):
+            orders.append(("permuted, others in front", extras + list(perm)))
+            orders.append(("permuted, others behind", list(perm) + extras))
+        for slots in itertools.permutations(range(7), 3):
+            lines = [None] * 7
+            for x, at in zip(extras, slots):
+                lines[at] = x
+            it = iter(base)
+            orders.append(("others interleaved", [l if l is not None else next(it) for l in lines]))
+        for oi, (oname, lines) in enumerate(orders):
+            if oi % 3 != case["part"]:
+                continue
+            res, (sessions, qs) = scen.run(pk, lines, want_objects=True)
+            n += 1
+            labels = [l.split()[0] for l in lines]
+            sig = {"kind": "keylog_lines", "proto": proto, "suite": f"{code:#06x}", "order": oname,
+                   "early_traffic_after_client_traffic": labels.index("CLIENT_EARLY_TRAFFIC_SECRET") > labels.index("CLIENT_TRAFFIC_SECRET_0"),
+                   "exporter_after_server_traffic": labels.index("EXPORTER_SECRET") > labels.index("SERVER_TRAFFIC_SECRET_0")}
+            diffs = []
+            if proto == "tls13":
+                if not res.ok or len(sessions) != 1 or sessions[0].decryptor is None:
+                    fails.append({"kind": "no_keys_installed", "sig": sig, "detail": res.status + res.detail[-300:]})
+                    continue
+                d, km = sessions[0].decryptor, conn.km
+                want = {"client_application_key": km["cap"].key, "client_application_iv": km["cap"].iv,
+                        "server_application_key": km["sap"].key, "server_application_iv": km["sap"].iv,
+                        "client_handshake_key": km["chs"].key, "client_handshake_iv": km["chs"].iv,
+                        "server_handshake_key": km["shs"].key, "server_handshake_iv": km["shs"].iv}
+                for name, w in want.items():
+                    g = b(getattr(d, name, None))
+                    if g != w:
+                        diffs.append(f"{name}: installed {g.hex() if g is not None else None} rfc {w.hex()}")
+            else:
+                if not res.ok or len(qs) != 1:
+                    fails.append({"kind": "no_session", "sig": sig, "detail": res.status + res.detail[-300:]})
+                    continue
+                q = qs[0]
+                want = {}
+                for stage, pairs in (("handshake", (("client", conn.keys[("hs", "c")]), ("server", conn.keys[("hs", "s")]))),
+                                     ("application", (("client", conn.app["c"][0]), ("server", conn.app["s"][0])))):
+                    for side, k in pairs:
+                        want[f"{side}_{stage}_key"], want[f"{side}_{stage}_iv"], want[f"{side}_{stage}_hp"] = k.key, k.iv, k.hp
+                for name, w in want.items():
+                    g = b(q.keys.get(name))
+                    if g != w:
+                        diffs.append(f"{name}: installed {g.hex() if g is not None else None} rfc {w.hex()}")
+            if diffs:
+                fails.append({"kind": "installed_key_differs", "sig": sig, "sub": {"labels": labels}, "detail": "; ".join(diffs)[:600]})
+            else:
+                nontriv.append(engine.jhash([sig, oi]))
     elif case["kind"] == "tls13_pair":
         # several TLS 1.3 connections in ONE run, with complete and with traffic-only key-log entries, in every order
         code = case["suite"]
